@@ -78,7 +78,7 @@ def spell_range(rng, r):
 def gen_doc(rng):
     """Recipe + materialiser for the document sweep."""
     kind = rng.choice(['html', 'html', 'html', 'xhtml', 'xml', 'iframe'])
-    langs = ['en', 'en-US', 'de', 'de-DE-1996', '', 'EN-us', 'x-en', 'a-de']
+    langs = ['en', 'en-US', 'de', 'de-DE-1996', '', 'EN-us', 'x-en', 'a-de', 'en_US', 'de-a_b-DE', 'en_']
     budget = [rng.randint(2, 12)]
 
     def lang_attr(e, xml_style):
@@ -219,7 +219,7 @@ def run_unit(u):
         cfg = sels.Cfg(names=['p', 'div', 'span', 'b', 'html', 'body'], p_id=0, p_class=0, p_attr=.1, attrs=['lang'], vals=['en', ''],
                        p_struct=.15, p_logical=.25, p_more=.3, flags=[None], struct=[x for x in sels.STRUCT if x != 'root'],
                        extra=[(.75, lambda r, d: ('lang', [r.choice(['en', 'EN', 'en-US', '*-US', 'de', 'de-*-1996', '*', '', 'fr', 'x', '*-en',
-                                                                     'late', 'a', 'en-*'])
+                                                                     'late', 'a', 'en-*', 'en_US', 'de-DE', 'en_'])
                                                            for _ in range(r.choice([1, 1, 2]))])),
                               (.15, lambda r, d: ('lang', [r.choice(['de', 'en', '*'])]))])
         for _ in range(u['n']):
